@@ -1,6 +1,7 @@
 import RpcVerif.Lemmas.ConnEnd
 import RpcVerif.Lemmas.PoolInv
 import RpcVerif.Lemmas.ServerInv
+import RpcVerif.Generated.ConnFacts
 /-
   C20 — Close releases every resource and is idempotent.
   Goroutine exit and socket closure are the runtime's; the theorems are about the automata's
@@ -41,5 +42,9 @@ theorem C20_server_conn_released {cfg : S.Cfg} {tr : List S.Ev} {s : S.State} (h
     (hu : S.UniqueSeq s) (hs : s.reader = .served) : S.undispatched s = [] ∧ s.wg = 0 := by
   have ht := (S.inv_accepts h hu).teardown
   exact ⟨ht.1 (Or.inr (Or.inr hs)), ht.2 (Or.inr hs)⟩
+
+/-- K's `close` event closes the codec unless a previous Close did: only `closing` guards it (a
+    connection whose peer went away first is still closed by Close) — fact read from conn.go. -/
+theorem C20_conn_close_always_closes_the_socket : Gen.connCloseGuardedByClosingOnly = true := by decide
 
 end RpcVerif.Props
